@@ -1104,3 +1104,251 @@ impl Check for BfdDatagrams {
         }
     }
 }
+
+// ---- C04: decode(encode(x)) is a fixed point for every value obtained by decoding -----------------
+//
+// The stream generator of C03 (valid traffic of a drawn session configuration, hand-written NLRI
+// bodies, transport faults, fragmentation) feeds the receiver-side codec; every UPDATE that comes
+// out of it (x, "a value obtained by decoding") is encoded again by the codec of a speaker with the
+// same capabilities towards a peer with the same capabilities, the frames are walked (negotiated
+// maximum size, header length = bytes that follow), decoded again (x') and encoded again:
+//   * x' carries the same routes as x: the same multiset of (family, prefix, path id), the same next
+//     hop and the same attributes up to the documented canonicalisation (extended-length flag;
+//     AS_PATH / AS4_PATH / AGGREGATOR reconciliation on a two-octet-AS session);
+//   * x' is a fixed point: decode(encode(x')) == x' exactly, and encode(x') is the same bytes.
+
+pub struct CodecFixedPoint;
+
+fn flat_routes(msgs: &[bgp::Message], canon: bool, as4: bool) -> Vec<String> {
+    let mut v = Vec::new();
+    for m in msgs {
+        match m {
+            bgp::Message::Update(bgp::Update::Reach { family, entries, nexthop, attr }) => {
+                let mut a: Vec<String> = attr
+                    .iter()
+                    .filter(|x| !(canon && !as4 && matches!(x.code(), 2 | 7 | 17 | 18)))
+                    .map(|x| if canon { format!("{}:{:02x}:{:?}", x.code(), x.flags() & !0x10, x.encode_to_bytes().get(if x.flags() & 0x10 != 0 { 4.. } else { 3.. }).map(|b| b.to_vec())) } else { format!("{:?}", x) })
+                    .collect();
+                a.sort();
+                // an IPv4 next hop of an IPv6 family travels as ::ffff:a.b.c.d: the same address
+                let nh = match nexthop {
+                    // flow specifications carry no next hop (RFC 8955 section 4: ignored on receipt)
+                    Some(_) if canon && matches!(*family, Family::IPV4_FLOWSPEC | Family::IPV6_FLOWSPEC | Family::IPV4_FLOWSPEC_VPN | Family::IPV6_FLOWSPEC_VPN) => None,
+                    Some(Nexthop::V6(a)) if canon => match a.to_ipv4_mapped() {
+                        Some(v4) => Some(Nexthop::V4(v4)),
+                        None => *nexthop,
+                    },
+                    other => *other,
+                };
+                for e in entries {
+                    v.push(format!("R {:?} {:?} nh={:?} {}", family, e, nh, a.join(",")));
+                }
+            }
+            bgp::Message::Update(bgp::Update::Unreach { family, entries }) => {
+                for e in entries {
+                    // a withdrawal may carry any label (RFC 8277 2.4): the route is identified without it
+                    let key = match &e.nlri {
+                        Nlri::LabeledV4(l) => format!("L4 {:?}", l.prefix),
+                        Nlri::LabeledV6(l) => format!("L6 {:?}", l.prefix),
+                        Nlri::VpnV4(x) => format!("V4 {:?} {:?}", x.rd, x.prefix),
+                        Nlri::VpnV6(x) => format!("V6 {:?} {:?}", x.rd, x.prefix),
+                        other => format!("{:?}", other),
+                    };
+                    v.push(format!("U {:?} #{} {}", family, e.path_id, key));
+                }
+            }
+            bgp::Message::Update(bgp::Update::EndOfRib(f)) => v.push(format!("E {:?}", f)),
+            _ => {}
+        }
+    }
+    v.sort();
+    v
+}
+
+/// Encode messages with `enc`; walk the frames; decode them with `dec`. None = the encoder refused.
+fn round_trip(msgs: &[bgp::Message], enc: &mut bgp::PeerCodec, dec: &mut bgp::PeerCodec, is_ebgp: bool) -> Result<Option<(Vec<u8>, Vec<bgp::Message>)>, (String, String)> {
+    let mut bytes = BytesMut::with_capacity(1 << 17);
+    for m in msgs {
+        if enc.encode_to(m, &mut bytes).is_err() {
+            return Ok(None);
+        }
+    }
+    let max = enc.max_message_length();
+    let mut i = 0usize;
+    while i < bytes.len() {
+        if i + 19 > bytes.len() {
+            return Err(("frame/trailing-bytes-shorter-than-a-header".into(), format!("{} bytes left at offset {}", bytes.len() - i, i)));
+        }
+        let l = u16::from_be_bytes([bytes[i + 16], bytes[i + 17]]) as usize;
+        if l < 19 || i + l > bytes.len() {
+            return Err(("frame/header-length-does-not-tile-the-output".into(), format!("length {} at offset {} of {}", l, i, bytes.len())));
+        }
+        if l > max {
+            return Err(("frame/longer-than-negotiated-maximum".into(), format!("frame of {} bytes, maximum {}", l, max)));
+        }
+        i += l;
+    }
+    let out_bytes = bytes.to_vec();
+    let mut got = Vec::new();
+    let mut rx = bytes;
+    loop {
+        match dec.try_parse(&mut rx) {
+            Ok(Some(p)) => match packet::validate_message(p, is_ebgp) {
+                Ok(it) => got.extend(it),
+                Err(n) => return Err(("decode/own-output-fails-validation".into(), format!("{:?}", n))),
+            },
+            Ok(None) => break,
+            Err(n) => return Err(("decode/own-output-rejected".into(), format!("{:?}", n))),
+        }
+    }
+    if !rx.is_empty() {
+        return Err(("decode/own-output-left-undecoded-bytes".into(), format!("{} bytes", rx.len())));
+    }
+    Ok(Some((out_bytes, got)))
+}
+
+impl Check for CodecFixedPoint {
+    fn property(&self) -> &'static str {
+        "C04"
+    }
+    fn tier(&self) -> &'static str {
+        "W"
+    }
+    fn name(&self) -> &'static str {
+        "codec-fixed-point"
+    }
+
+    fn generate(&self, seed: u64, thorough: bool) -> Json {
+        BgpStreams.generate(seed, thorough)
+    }
+
+    fn execute(&self, case: &Json, tol: &Tolerate) -> Outcome {
+        let mut out = Outcome::default();
+        let (mut codec, _fams, _) = codec_from(case);
+        let as4 = case.get("as4").map(|b| b.as_bool()).unwrap_or(true);
+        let frames: Vec<Vec<u8>> = case.get("frames").map(|f| f.arr().iter().map(|x| unhex(x.as_str())).collect()).unwrap_or_default();
+        let faults: Vec<Fault> = case.get("ops").map(|o| o.arr().iter().filter_map(fault_from_json).collect()).unwrap_or_default();
+        let mut fr = frames.clone();
+        for f in &faults {
+            match f {
+                Fault::DupFrame(k) if !fr.is_empty() => {
+                    let k = k % fr.len();
+                    let d = fr[k].clone();
+                    fr.insert(k, d);
+                }
+                Fault::Splice(k, o) if !fr.is_empty() => {
+                    let k = k % fr.len();
+                    let o = o % (fr[k].len() + 1);
+                    fr[k].truncate(o);
+                }
+                _ => {}
+            }
+        }
+        let mut stream: Vec<u8> = fr.concat();
+        for f in &faults {
+            apply_fault(&mut stream, f);
+        }
+        let is_ebgp = case.get("ebgp").map(|b| b.as_bool()).unwrap_or(true);
+        let mut log = LogHash::default();
+        let mut sig = LogHash::default();
+        macro_rules! fail {
+            ($class:expr, $($arg:tt)*) => {{
+                let v = Violation::new(format!("C04/fixed-point/{}", $class), format!($($arg)*));
+                if out.violate(tol, v) { out.log_hash = log.0; out.signature = sig.0; return out; }
+            }};
+        }
+        // x: every UPDATE the receiver decodes from the (possibly damaged) stream
+        let mut rxbuf = BytesMut::from(&stream[..]);
+        let mut n_msgs = 0;
+        loop {
+            let parsed = match codec.try_parse(&mut rxbuf) {
+                Ok(Some(p)) => p,
+                _ => break,
+            };
+            if !matches!(parsed, bgp::ParsedMessage::Update(_)) {
+                continue;
+            }
+            let x: Vec<bgp::Message> = match packet::validate_message(parsed, is_ebgp) {
+                Ok(it) => it.collect(),
+                Err(_) => break,
+            };
+            if x.is_empty() {
+                continue;
+            }
+            n_msgs += 1;
+            out.steps += 1;
+            let fx = flat_routes(&x, true, as4);
+            sig.add_u64(fx.len() as u64);
+            log.add_u64(fx.len() as u64);
+            // x -> bytes -> x'
+            let (b1, x1) = match round_trip(&x, &mut sender_codec(case), &mut codec_from(case).0, is_ebgp) {
+                Ok(Some(r)) => r,
+                Ok(None) => {
+                    out.hit("encode.refused");
+                    continue;
+                }
+                Err((class, d)) => {
+                    fail!(class, "encoding of a decoded UPDATE ({} routes): {}", fx.len(), d);
+                    continue;
+                }
+            };
+            let _ = b1;
+            let fx1 = flat_routes(&x1, true, as4);
+            // a route whose attributes do not fit is sent as a withdrawal (documented): then x' has an
+            // unreach where x had a reach, and nothing more can be compared for this message
+            let reach = |v: &[String]| v.iter().filter(|s| s.starts_with("R ")).count();
+            if reach(&fx1) < reach(&fx) && fx1.iter().any(|s| s.starts_with("U ")) && !fx.iter().any(|s| s.starts_with("U ")) {
+                out.hit("encode.treat-as-withdraw");
+                continue;
+            }
+            if fx != fx1 {
+                let d = fx.iter().zip(fx1.iter()).find(|(a, b)| a != b).map(|(a, b)| format!("{} | {}", a, b)).unwrap_or_else(|| format!("{} routes became {}", fx.len(), fx1.len()));
+                fail!("routes-differ-after-encode-decode", "decode(encode(x)) != x up to canonicalisation: {}", &d[..d.len().min(900)]);
+                continue;
+            }
+            out.hit("probe.round-trip-equal");
+            // x' is a fixed point, exactly
+            let (b2, x2) = match round_trip(&x1, &mut sender_codec(case), &mut codec_from(case).0, is_ebgp) {
+                Ok(Some(r)) => r,
+                Ok(None) => {
+                    fail!("second-encoding-refused", "encode(x') fails although x' = decode(encode(x))");
+                    continue;
+                }
+                Err((class, d)) => {
+                    fail!(class, "second encoding: {}", d);
+                    continue;
+                }
+            };
+            let (e1, e2) = (flat_routes(&x1, false, as4), flat_routes(&x2, false, as4));
+            if e1 != e2 {
+                let d = e1.iter().zip(e2.iter()).find(|(a, b)| a != b).map(|(a, b)| format!("{} | {}", a, b)).unwrap_or_else(|| format!("{} routes became {}", e1.len(), e2.len()));
+                fail!("not-a-fixed-point", "decode(encode(x')) != x' for x' = decode(encode(x)): {}", &d[..d.len().min(900)]);
+                continue;
+            }
+            let (b3, _) = match round_trip(&x2, &mut sender_codec(case), &mut codec_from(case).0, is_ebgp) {
+                Ok(Some(r)) => r,
+                _ => continue,
+            };
+            if b2 != b3 {
+                fail!("encoding-not-stable", "encode(x'') differs from encode(x') although x'' == x' ({} vs {} bytes)", b3.len(), b2.len());
+            }
+            out.nontrivial = true;
+        }
+        sig.add_u64(n_msgs);
+        out.log_hash = log.0;
+        out.signature = sig.0;
+        out
+    }
+
+    fn info(&self) -> CheckInfo {
+        CheckInfo {
+            rule: "the stream generator of C03 (1-3 messages of a drawn session configuration in 12 constructible families plus hand-written NLRI bodies, 0-3 transport faults, fragmentation); every UPDATE x that the receiver-side codec decodes from the stream is encoded by a sender-side codec with the same capabilities, the frames walked (header lengths tile the output, none longer than the negotiated maximum), decoded again (x'), encoded and decoded again (x''): routes(x') == routes(x) up to the documented canonicalisation (extended-length flag; AS_PATH / AS4_PATH / AGGREGATOR on a two-octet-AS session; a route whose attributes no longer fit is withdrawn), x'' == x' exactly and encode(x'') == encode(x') byte for byte. non-trivial = a decoded UPDATE went through both round trips".into(),
+            components_real: vec!["packet::PeerCodec::{negotiate, try_parse, encode_to, max_message_length}".into(), "packet::validate_message".into(), "all per-family NLRI encoders and decoders, attribute encoders and decoders".into()],
+            components_stubbed: vec!["the byte transport (faults and fragmentation are simulated); the send path of the daemon (grouping, splitting under back-pressure) runs in tier D (bulk-export)".into()],
+            assumptions: vec!["the route multiset is compared per NLRI, so a split into several frames is not a difference".into()],
+            bounds: "<=3 messages, <=40 NLRI each, stream <= 64 KiB, <=3 faults".into(),
+        }
+    }
+}
+
+
